@@ -238,6 +238,9 @@ def native_confirm(task, viol):
     if kind in ('deadlock', 'hang'):
         if nr['timeout']:
             return True, 'native run timed out (hang)'
+        n2 = native_run(task.text, task.entry, viol['inputs'], timeout=40, env_extra={'VP_MAIN_SLOW': '15'})
+        if n2['timeout']:
+            return True, 'native run with a slow application thread (15 ms pause after each of its mutex releases: the workers run until they park, as in the cooperative schedule) timed out (hang)'
         for seed in range(1, 7):
             n2 = native_run(task.text, task.entry, viol['inputs'], timeout=20, env_extra={'VP_CHAOS': str(seed * 104729)})
             if n2['timeout']:
